@@ -24,6 +24,10 @@ type c20Case struct {
 func c20Timeout(s string) (*time.Duration, time.Duration) {
 	d := func(x time.Duration) *time.Duration { return &x }
 	switch s {
+	case "30s-then-0", "30s-then--1s":
+		return nil, 5 * time.Second // the option is applied twice; the last, non-positive setting falls back to the default
+	case "0-then-1s":
+		return nil, time.Second
 	case "unset":
 		return nil, 5 * time.Second
 	case "-1s":
@@ -46,9 +50,9 @@ func c20Cases() []c20Case {
 	var out []c20Case
 	for _, lat := range []string{"0", "T-1ms", "T", "T+1ms", "10T", "never"} {
 		for _, oc := range []string{"304", "200", "200-nostore", "500", "err", "body-fail"} {
-			for _, to := range []string{"unset", "-1s", "0", "1ns", "1s", "5s", "1h"} {
+			for _, to := range []string{"unset", "-1s", "0", "1ns", "1s", "5s", "1h", "30s-then-0", "30s-then--1s", "0-then-1s"} {
 				for _, cx := range []string{"background", "cancelled-before", "cancelled-after", "deadline-before-T", "deadline-after-T"} {
-					for vi, v := range []string{"etag", "lm", "both", "none", "etag-qualified", "both-qualified"} {
+					for vi, v := range []string{"etag", "lm", "both", "none", "etag-qualified", "both-qualified", "etag-weak"} {
 						// validators x row are folded to keep the grid near 8k
 						row := 1 + (vi+len(out))%3
 						out = append(out, c20Case{lat, oc, to, cx, v, row})
@@ -107,6 +111,9 @@ func c20Run(r *run.Runner, c c20Case) {
 	if strings.HasPrefix(c.Validators, "etag") || strings.HasPrefix(c.Validators, "both") {
 		stored.ETag = `"v"`
 	}
+	if c.Validators == "etag-weak" {
+		stored.ETag = `W/"v"`
+	}
 	if c.Validators == "lm" || strings.HasPrefix(c.Validators, "both") {
 		stored.LastMod = "-1000"
 	}
@@ -115,7 +122,16 @@ func c20Run(r *run.Runner, c c20Case) {
 		// replayed to the client, but the background request still carries them
 		stored.CC[0] += `, no-cache="ETag, Last-Modified"`
 	}
-	w := sim.NewWorld(sim.WorldOpt{SWRTimeout: opt, Handler: func(uc *sim.UpCall, req *http.Request) *sim.Reply {
+	var seq []time.Duration
+	switch c.Timeout {
+	case "30s-then-0":
+		seq = []time.Duration{30 * time.Second, 0}
+	case "30s-then--1s":
+		seq = []time.Duration{30 * time.Second, -time.Second}
+	case "0-then-1s":
+		seq = []time.Duration{0, time.Second}
+	}
+	w := sim.NewWorld(sim.WorldOpt{SWRTimeout: opt, SWRTimeouts: seq, Handler: func(uc *sim.UpCall, req *http.Request) *sim.Reply {
 		if phase == 0 {
 			return Render(&stored, uc.Enter, uc.Serial)
 		}
